@@ -148,6 +148,13 @@ def run(tier, seed, t0):
     for c in pl:
         for e in errnos:
             jobs.append(("error:" + e, c, "%s:error=%s:when=%d" % (c["name"], e, c["when"]), None))
+    # a fault that persists (read-only or full file system, vanished directory): the same call keeps failing from
+    # that occurrence on, so a retry inside the store fails as well
+    for c in pl:
+        if c["name"] not in ("rename", "renameat", "renameat2", "unlinkat", "unlink", "linkat", "fsync", "fdatasync", "fchmod", "fchmodat", "mkdirat"):
+            continue  # (open / write / close are also what the child uses to report its own steps)
+        for e in errnos[:2]:
+            jobs.append(("error:" + e + ":from-here", c, "%s:error=%s:when=%d+" % (c["name"], e, c["when"]), None))
     # torn writes: file size limit during the history (short write, then EFBIG), alone and followed by a kill at the next calls
     sizes = [1, 100, 4095, 4096, 4097, 2000000, 4000000]
     for L in sizes:
